@@ -250,3 +250,31 @@ Fixpoint copy_peak (n : nat) (ublen : Z) : Z :=
   | S k => let u := (if ublen + copy_rect_bytes >? UPDATE_BUF_SIZE then 0 else ublen) + copy_rect_bytes in
            Z.max u (copy_peak k u)
   end.
+
+(* ------------------------------------------------------------------ the count stage with the repair of F5
+   (notes/fix_C03_5.diff): an explicit lastRectMode flag instead of the 0xFFFF sentinel, and an update
+   that would announce 65535 or more rectangles is coalesced to its bounding box and counted again *)
+Definition is_tight_class (pref : Z) : bool :=
+  match classify pref with EcTight | EcTightPng => true | _ => false end.
+
+Definition tight_unknown (pref : Z) (lastrect : bool) (region : list xywh) : bool :=
+  is_tight_class pref && existsb (fun '(x, y, w, h) => count_tight lastrect x y w h =? 0) region.
+
+(* Some (nUpdateRegionRects, lastRectMode) *)
+Definition count_stage (pref : Z) (lastrect : bool) (cmw cmh : Z) (region : list xywh) : option (Z * bool) :=
+  if tight_unknown pref lastrect region then Some (65535, true)
+  else obind (n_region_rects pref lastrect cmw cmh region) (fun n => Some (n, false)).
+
+Definition announce_fixed (pref : Z) (lastrect : bool) (cmw cmh maxrects : Z) (region : list xywh)
+           (ncopy npseudo : Z) : option (Z * list xywh * bool) :=
+  obind (count_stage pref lastrect cmw cmh region) (fun '(n, lrm) =>
+  obind (if negb lrm && (ncopy + n + 6 >=? 65535)
+         then obind (count_stage pref lastrect cmw cmh [bbox_of region]) (fun r => Some ([bbox_of region], r))
+         else Some (region, (n, lrm)))
+        (fun '(region1, (n1, lrm1)) =>
+           if lrm1 then Some (65535, region1, true)
+           else
+             let '(region2, n2) :=
+               if (maxrects >? 0) && negb (exempt_from_coalescing pref) && (n1 >? maxrects)
+               then ([bbox_of region1], 1) else (region1, n1) in
+             Some (wrap16 (ncopy + n2 + npseudo), region2, false))).
